@@ -27,6 +27,7 @@ type levelLoop struct {
 	cur     *ssa.Phi // running hash
 	sx      *core.Symx
 	problem string
+	hPhi *ssa.Phi // the loop-carried counter (== h, or h-1 in the range form)
 }
 
 func stripConv(v ssa.Value) ssa.Value {
@@ -93,9 +94,16 @@ func findLevelLoop(fn *ssa.Function) *levelLoop {
 		// the running hash: a Phi of 32-byte array type in the block of the level variable's Phi
 		hp, ok := ll.h.(*ssa.Phi)
 		if !ok {
+			// `for h := range x` / `for h, s := range proof`: the level is phi{-1, …}+1
+			if add, isAdd := ll.h.(*ssa.BinOp); isAdd && add.Op == token.ADD && constIs(add.Y, 1) {
+				hp, ok = add.X.(*ssa.Phi)
+			}
+		}
+		if !ok {
 			ll.problem = "the level variable is not a loop variable"
 			return ll
 		}
+		ll.hPhi = hp
 		for _, ins := range hp.Block().Instrs {
 			p, ok := ins.(*ssa.Phi)
 			if !ok {
@@ -119,7 +127,27 @@ func findLevelLoop(fn *ssa.Function) *levelLoop {
 
 // loopRange checks that the level variable covers 0..31 (ascending) or 31..0 (descending).
 func (ll *levelLoop) loopRange() (string, bool) {
-	hp := ll.h.(*ssa.Phi)
+	hp := ll.hPhi
+	if ssa.Value(hp) != ll.h {
+		// range form: the level is hp+1, hp starts at -1 and is stepped to the level itself; bound `level < 32`
+		var init, step ssa.Value
+		for k, e := range hp.Edges {
+			if pb := hp.Block().Preds[k]; hp.Block().Dominates(pb) {
+				step = e
+			} else {
+				init = e
+			}
+		}
+		sx := core.NewSymx()
+		sx.ElideConv = true
+		sx.Bind(ll.h, "H")
+		bound := ""
+		if iff, ok := hp.Block().Instrs[len(hp.Block().Instrs)-1].(*ssa.If); ok {
+			bound = sx.Of(iff.Cond).String()
+		}
+		ok := init != nil && constIs(init, -1) && step == ll.h && (bound == "(H < const(32))" || bound == "(H < len(proof))" && false)
+		return fmt.Sprintf("range form: init=-1+1 step=+1 bound=%s", bound), ok
+	}
 	var init, step ssa.Value
 	for k, e := range hp.Edges {
 		if pb := hp.Block().Preds[k]; hp.Block().Dominates(pb) {
@@ -150,43 +178,96 @@ func inSide(b, side *ssa.BasicBlock) bool { return b == side || side.Dominates(b
 // builderStep checks a bottom-up hashing step: on the bit-set edge hash(sibling[H], CUR), on the clear edge hash(CUR, sibling[H]).
 func (ll *levelLoop) builderStep(hashCallee string, setArr, clrArr []string) (string, bool) {
 	type pair struct{ a, b string }
-	get := func(side *ssa.BasicBlock) []pair {
+	ifBlk := ll.iff.Block()
+	exclusive := func(side *ssa.BasicBlock) bool { return len(side.Preds) == 1 }
+	// resolve: the value a Phi takes when the level loop body was entered through `side`
+	var resolve func(v ssa.Value, side *ssa.BasicBlock, d int) ssa.Value
+	resolve = func(v ssa.Value, side *ssa.BasicBlock, d int) ssa.Value {
+		phi, ok := v.(*ssa.Phi)
+		if !ok || d > 4 || phi == ll.cur || phi == ll.hPhi {
+			return v
+		}
+		var pick ssa.Value
+		n := 0
+		for k, e := range phi.Edges {
+			pb := phi.Block().Preds[k]
+			via := false
+			switch {
+			case pb == ifBlk:
+				via = phi.Block() == side // direct edge of the bit test
+			case exclusive(side) && inSide(pb, side):
+				via = true
+			}
+			if via {
+				if pick != e {
+					n++
+				}
+				pick = e
+			}
+		}
+		if n != 1 {
+			return v
+		}
+		return resolve(pick, side, d+1)
+	}
+	hashArgs := func(call *ssa.Call) (a, b ssa.Value, ok bool) {
+		if hashCallee == "github.com/ethereum/go-ethereum/crypto.Keccak256Hash" {
+			sl, isS := call.Call.Args[0].(*ssa.Slice)
+			if !isS {
+				return nil, nil, false
+			}
+			arr, isA := sl.X.(*ssa.Alloc)
+			if !isA {
+				return nil, nil, false
+			}
+			vals := map[int64]ssa.Value{}
+			for _, r := range *arr.Referrers() {
+				if ia, isIA := r.(*ssa.IndexAddr); isIA {
+					k, _ := core.ConstInt(ia.Index)
+					for _, r2 := range *ia.Referrers() {
+						if st, isSt := r2.(*ssa.Store); isSt && st.Addr == ssa.Value(ia) {
+							vals[k] = st.Val
+						}
+					}
+				}
+			}
+			if len(vals) != 2 {
+				return nil, nil, false
+			}
+			strip := func(v ssa.Value) ssa.Value {
+				if c, isC := v.(*ssa.Call); isC && strings.HasSuffix(core.CallName(c), "common.Hash).Bytes") {
+					return c.Call.Args[0]
+				}
+				return v
+			}
+			return strip(vals[0]), strip(vals[1]), true
+		}
+		return call.Call.Args[0], call.Call.Args[1], true
+	}
+	get := func(side, other *ssa.BasicBlock) []pair {
 		var out []pair
 		for _, b := range ll.fn.Blocks {
-			if !inSide(b, side) {
+			if b != ifBlk && !ifBlk.Dominates(b) {
 				continue
 			}
+			if exclusive(other) && inSide(b, other) {
+				continue // only executed on the other edge
+			}
+			onlyThisSide := exclusive(side) && inSide(b, side)
 			for _, ins := range b.Instrs {
 				call, ok := ins.(*ssa.Call)
 				if !ok || core.CallName(call) != hashCallee {
 					continue
 				}
-				if hashCallee == "github.com/ethereum/go-ethereum/crypto.Keccak256Hash" {
-					t := ll.sx.Of(call.Call.Args[0])
-					// slice of a [2][]byte literal
-					var lit *core.Term
-					t.Walk(func(x *core.Term) {
-						if x.Op == "lit" && lit == nil {
-							lit = x
-						}
-					})
-					if lit == nil || len(lit.Fields) != 2 {
-						out = append(out, pair{"?", "?"})
-						continue
-					}
-					strip := func(x *core.Term) string {
-						if x != nil && x.Op == "call" && strings.HasSuffix(x.Name, "common.Hash).Bytes") {
-							return x.Args[0].String()
-						}
-						if x == nil {
-							return "?"
-						}
-						return x.String()
-					}
-					out = append(out, pair{strip(lit.Fields["[const(0)]"]), strip(lit.Fields["[const(1)]"])})
-				} else {
-					out = append(out, pair{ll.sx.Of(call.Call.Args[0]).String(), ll.sx.Of(call.Call.Args[1]).String()})
+				x, y, ok := hashArgs(call)
+				if !ok {
+					out = append(out, pair{"?", "?"})
+					continue
 				}
+				if !onlyThisSide {
+					x, y = resolve(x, side, 0), resolve(y, side, 0)
+				}
+				out = append(out, pair{ll.sx.Of(x).String(), ll.sx.Of(y).String()})
 			}
 		}
 		return out
@@ -199,7 +280,7 @@ func (ll *levelLoop) builderStep(hashCallee string, setArr, clrArr []string) (st
 		}
 		return false
 	}
-	s, c := get(ll.setBlk), get(ll.clrBlk)
+	s, c := get(ll.setBlk, ll.clrBlk), get(ll.clrBlk, ll.setBlk)
 	desc := fmt.Sprintf("bit set: %v; bit clear: %v", s, c)
 	if len(s) != 1 || len(c) != 1 {
 		return desc + " (expected exactly one node hash per edge)", false
